@@ -19,6 +19,9 @@ type inputRec struct {
 	Kind string // "byte","int","bool"
 }
 
+// noNativeField switches the native-field view off (used to test the probing of unfinished paths).
+var noNativeField = os.Getenv("GOSYM_NONATIVEFIELD") != ""
+
 type frame struct {
 	cf        *cfunc
 	regs      []Val
@@ -1292,7 +1295,7 @@ func (ex *Exec) runBlock(fr *frame) {
 			fr.regs[ci.dst] = ex.binop(in.Op, in.X.Type(), ex.op(fr, &ci.ops[0]), ex.op(fr, &ci.ops[1]))
 		case *ssa.FieldAddr:
 			p := ex.ptr(ex.op(fr, &ci.ops[0]))
-			if nv, isNative := (*p).(nativeVal); isNative {
+			if nv, isNative := (*p).(nativeVal); isNative && !noNativeField {
 				// read-only view of an exported scalar field of a natively held struct (e.g. url.URL.Host)
 				rv := reflect.ValueOf(nv.v)
 				if rv.Kind() == reflect.Ptr && rv.Elem().Kind() == reflect.Struct && in.Field < rv.Elem().NumField() && rv.Elem().Type().Field(in.Field).IsExported() {
